@@ -243,4 +243,33 @@ func specAtoiOK(s string) bool {
 //@ props C01
 //@ option trusted
 //@ ensures[nonnil] result1 == nil ==> result0 != nil
-//@ ensures[A3.row] result1 == nil ==> SpecRowOK(result0)
+//@ ensures[A3.row] result1 == nil ==> SpecRowOK(result0) && specEncWF(result0)
+
+// ---------------------------------------------------------------------------
+// Pass-1 size of an instruction (C03): the bytes of the chosen row plus prefixes, displacement and
+// SIB byte of the operands. The clauses speak about the calls the function makes (ghost call log).
+// ---------------------------------------------------------------------------
+
+func specB2I(b bool) int {
+	if b {
+		return 1
+	}
+	return 0
+}
+
+//@ func (*InstructionDB).GetPrefixSize
+//@ props C03
+//@ requires operands != nil
+//@ ensures[sum@C03] strings.ToUpper(opcode) != "IN" && strings.ToUpper(opcode) != "OUT" ==> vcCalled("Require66h") && vcCalled("Require67h") && result0 == specB2I(vcResult[bool]("Require66h", 0))+specB2I(vcResult[bool]("Require67h", 0))
+//@ ensures[sum.inout@C03] strings.ToUpper(opcode) == "IN" || strings.ToUpper(opcode) == "OUT" ==> vcCalled("getPrefix66SizeForInOut") && vcCalled("Require67h") && result0 == vcResult[int]("getPrefix66SizeForInOut", 0)+specB2I(vcResult[bool]("Require67h", 0))
+//@ ensures[range] 0 <= result0 && result0 <= 2 || strings.ToUpper(opcode) == "IN" || strings.ToUpper(opcode) == "OUT"
+//@ assigns OperandPegImpl.bitMode, OperandType[]
+
+//@ func (*InstructionDB).FindMinOutputSize
+//@ props C03
+//@ requires operands != nil
+//@ calls[row] (*asmdb.InstructionDB).FindEncoding : arg1 == opcode && vcSame(arg2, operands)
+//@ calls[base] (*asmdb.Encoding).GetOutputSize : arg0 == vcResult[*Encoding]("FindEncoding", 0) && arg1 == nil
+//@ calls[prefix] (*asmdb.InstructionDB).GetPrefixSize : arg1 == opcode && vcSame(arg2, operands)
+//@ ensures[sum@C03] result1 == nil ==> vcCalled("GetOutputSize") && vcCalled("GetPrefixSize") && vcCalled("CalcOffsetByteSize") && vcCalled("CalcSibByteSize") && result0 == vcResult[int]("GetOutputSize", 0)+vcResult[int]("GetPrefixSize", 0)+vcResult[int]("CalcOffsetByteSize", 0)+vcResult[int]("CalcSibByteSize", 0)
+//@ assigns OperandPegImpl.bitMode, OperandType[]
